@@ -191,12 +191,14 @@ CHECKS = {
             'only by the sampled correspondence; Python == / hash classes are assigned by the harness.',
             '5 (C17)'),
     'C18': ('Lean 4 proof: classification folds are partitions (generic fold lemma), verdict <=> single good key, '
-            'OK+KO=total for every row of the recursive by-labels loop (index invariant) + differential correspondence',
-            'tasks_partition / tests_partition / *_success_iff / labels_row_sum / labels_n proved for all inputs of the '
-            'model; model tied to stats.py on every run on generated task sections; recount oracle on the implementation.',
+            'OK+KO=total for every row of the recursive by-labels loop, exact characterisation of the rows by induction over the '
+            'labels (index well-formedness + semantic invariant preserved by keep_only) + differential correspondence',
+            'tasks_partition / tests_partition / *_success_iff / labels_row_sum / labels_n, and labels_rows_exact (each row '
+            'counts exactly the results carrying the requested labels with its values, every such result is in the row of '
+            'its combination, no combination has two rows) with labels_total (the totals add up to the number of results '
+            'carrying all requested labels, each counted once) proved for all inputs of the model; model tied to stats.py on every run on generated task sections; recount oracle on the implementation.',
             'Trusted: Lean kernel + standard axioms; correspondence is sampled; NOT_A_TEST results and non-string label '
-            'values are outside the quantifier; per-row id-set characterisation (labels_total) is checked by the oracle, '
-            'not yet a theorem.',
+            'values are outside the quantifier.',
             '5 (C18)'),
     'C09': ('Lean 4 proof: Python slice normalisation transcribed; cells (1-d and N-d by induction over axes), edges '
             'a..b / centres a..b-1, well-formedness, squeeze + differential correspondence, exhaustive small scopes in thorough',
